@@ -977,3 +977,104 @@ Proof.
   intros Hh H. apply compile_bytes_fails_iff in H. destruct H as [H|[[x [Hin Hx]]|H]]; [left; exact H| |right; exact H].
   rewrite (all_ok_compile_program mapenv c e Hh x Hin) in Hx. discriminate.
 Qed.
+
+(* ================================================================== the assembled bytes are bytes *)
+Definition is_byte (b : Z) : Prop := 0 <= b < 256.
+
+Lemma index_of_range n : forall l k j, index_of n l k = Some j -> k <= j < k + Z.of_nat (List.length l).
+Proof.
+  induction l as [|x r IH]; intros k j H; cbn [index_of] in H; [discriminate|].
+  cbn [List.length]. destruct (String.eqb x n).
+  - injection H as <-. lia.
+  - apply IH in H. lia.
+Qed.
+
+Lemma opcode_is_byte n b : opcode_of n = Some b -> is_byte b.
+Proof.
+  unfold opcode_of. intros H. apply index_of_range in H.
+  assert (L : Z.of_nat (List.length opcode_names) <= 256) by (vm_compute; discriminate).
+  unfold is_byte. lia.
+Qed.
+
+Lemma encode16_bytes k : 0 <= k <= max_uint16 -> Forall is_byte (encode16 k).
+Proof.
+  unfold max_uint16, encode16, is_byte. intros Hk.
+  pose proof (Z.mod_pos_bound k 256 ltac:(lia)).
+  assert (0 <= k / 256) by (apply Z.div_pos; lia).
+  assert (k / 256 < 256) by (apply Z.div_lt_upper_bound; lia).
+  repeat constructor; lia.
+Qed.
+
+Lemma intern_index_range pool c pool' k :
+  Z.of_nat (List.length pool) <= max_uint16 -> intern pool c = Some (pool', k) -> 0 <= k <= max_uint16.
+Proof.
+  intros Hl H. pose proof (intern_some_unbounded _ _ _ _ H) as [_ [_ Hl']]. specialize (Hl' Hl).
+  apply intern_spec in H. destruct H as [_ [Hk [d [Hn _]]]].
+  assert (Z.to_nat k < List.length pool')%nat by (apply nth_error_Some; rewrite Hn; discriminate). lia.
+Qed.
+
+Lemma asm_bytes : forall its pool pos bs poolF locs,
+  Z.of_nat (List.length pool) <= max_uint16 -> asm its pool pos = Some (bs, poolF, locs) -> Forall is_byte bs.
+Proof.
+  induction its as [|it its IH]; intros pool pos bs poolF locs Hl H; cbn [asm] in H.
+  - injection H as <- <- <-. constructor.
+  - destruct it as [i l|c].
+    + destruct (enc_instr pool i) as [[b1 pool1]|] eqn:En; [|discriminate].
+      destruct (asm its pool1 (pos + Z.of_nat (List.length b1))) as [[[bs' poolF'] locs']|] eqn:Ar; [|discriminate].
+      injection H as <- <- <-. apply Forall_app.
+      unfold enc_instr in En. destruct (opcode_of (iname i)) as [b|] eqn:Hb; [|discriminate].
+      apply opcode_is_byte in Hb.
+      destruct (ioperand i) as [|c|off|k|] eqn:E; try discriminate.
+      * injection En as <- <-. split; [constructor; [exact Hb|constructor]|eapply IH; [exact Hl|exact Ar]].
+      * destruct (intern pool c) as [[p' k]|] eqn:I; [|discriminate]. injection En as <- <-.
+        pose proof (intern_index_range _ _ _ _ Hl I) as Hk.
+        pose proof (intern_some_unbounded _ _ _ _ I) as [_ [_ Hl']].
+        split; [constructor; [exact Hb|apply encode16_bytes; exact Hk]|eapply IH; [apply Hl'; exact Hl|exact Ar]].
+      * destruct (max_uint16 <? off) eqn:Hm; [discriminate|]. injection En as <- <-. apply Z.ltb_ge in Hm.
+        assert (0 <= off).
+        { destruct i; cbn [ioperand] in E; try discriminate; try (destruct ((t =? 0) || (t =? 1)); discriminate); injection E as <-; lia. }
+        split; [constructor; [exact Hb|apply encode16_bytes; lia]|eapply IH; [exact Hl|exact Ar]].
+      * injection En as <- <-.
+        assert (0 <= k <= 1).
+        { destruct i; cbn [ioperand] in E; try discriminate. destruct ((t =? 0) || (t =? 1)) eqn:Et; [|discriminate].
+          injection E as <-. apply orb_prop in Et. destruct Et as [Et|Et]; apply Z.eqb_eq in Et; lia. }
+        split; [constructor; [exact Hb|apply encode16_bytes; unfold max_uint16; lia]|eapply IH; [exact Hl|exact Ar]].
+    + destruct (intern pool c) as [[pool1 k]|] eqn:I; [|discriminate].
+      pose proof (intern_some_unbounded _ _ _ _ I) as [_ [_ Hl']]. eapply IH; [apply Hl'; exact Hl|exact H].
+Qed.
+
+(* every element of the assembled Bytecode is a byte, the pool has at most 65535 entries *)
+Theorem assemble_items_bytes its p : assemble_items its = Some p ->
+  Forall is_byte (p_bytes p) /\ Z.of_nat (List.length (p_consts p)) <= max_uint16.
+Proof.
+  unfold assemble_items. destruct (asm its [] 0) as [[[bs pool] locs]|] eqn:A; [|discriminate].
+  intros H. injection H as <-. cbn [p_bytes p_consts]. split.
+  - eapply asm_bytes; [|exact A]. cbn. unfold max_uint16. lia.
+  - apply asm_some in A. destruct A as [_ [_ Hl]]. apply Hl. cbn. unfold max_uint16. lia.
+Qed.
+
+(* ================================================================== only registered constants are found *)
+(* the index map only holds hashable keys: an entry that const_go_eq finds equal to something is
+   compared by contents (never a slice, a map, a func, a pointer or an opaque value) *)
+Lemma vgo_eq_class : forall w v, vgo_eq w v = true -> field_class w = KVal /\ slice_or_map w = false.
+Proof.
+  fix IH 1. intros w v.
+  destruct w as [|wb|wn|ws|we wl|we|wk wt wm|wname wptr wfields|wt|wk wt|wname wt|wname wx|wd];
+    cbn [vgo_eq]; try discriminate; try (intros _; split; reflexivity).
+  - destruct wptr; [discriminate|].
+    destruct v as [|vb|vn|vs|ve vl|ve|vk vt vm|vname vptr vfields|vt|vk vt|vname vt|vname vx|vd]; try discriminate.
+    destruct vptr; [discriminate|]. intros H. apply andb_prop in H. destruct H as [_ H]. split; [|reflexivity].
+    cbn [field_class]. revert vfields H.
+    induction wfields as [|[n1 x] r1 IHl]; intros [|[n2 y] r2] H; try discriminate; [reflexivity|].
+    apply andb_prop in H. destruct H as [H H3]. apply andb_prop in H. destruct H as [H1 H2].
+    destruct (IH x y H2) as [Hx _]. rewrite Hx, (IHl r2 H3). reflexivity.
+  - destruct v as [|vb|vn|vs|ve vl|ve|vk vt vm|vname vptr vfields|vt|vk vt|vname vt|vname vx|vd]; try discriminate.
+    intros H. apply andb_prop in H. destruct H as [_ H]. cbn [field_class slice_or_map]. apply (IH wx vx H).
+Qed.
+
+Lemma go_eq_only_keys d c : const_go_eq d c = true -> d <> CVal VNil -> const_class d = HKey.
+Proof.
+  destruct d as [w|n z|p], c as [v|n' z'|p']; cbn [const_go_eq]; try discriminate; intros H Hn; [|reflexivity].
+  apply vgo_eq_class in H. destruct H as [Hf Hs]. unfold const_class. rewrite Hs, Hf.
+  destruct w; try reflexivity. exfalso. apply Hn. reflexivity.
+Qed.
